@@ -565,6 +565,16 @@ func init() {
 				stat("C14", "history-pairs")
 			}
 			fmt.Fprintf(out, "CASE\tC14\t%s\t%s\t1\n", sx.String(cs), sx.String(sx.A(string(base))))
+			// Verify rebuilds the same bytes from the presented step (and then accepts the signature made over them)
+			if st, _, err := stepFromDoc(c.doc); err == nil {
+				if sg, _, err := signPayload(key, st, c.repo, c.penv); err == nil {
+					vp, verr := verifyPayload(key, sg, st, c.repo, c.penv)
+					if verr != nil || !bytes.Equal(vp, base) {
+						oracleFail("C14", "verify-payload-differs", cs, fmt.Sprintf("Sign logged the payload\n%s\nVerify of the same step (err=%v) logged\n%s", base, verr, vp))
+					}
+					stat("C14", "verify-payloads")
+				}
+			}
 			// determinism over repeated runs (Go map iteration)
 			for r := 0; r < 3; r++ {
 				again, _, _ := c14payload(c, key)
